@@ -26,6 +26,9 @@ type Spec struct {
 	Types        []Named `json:"types,omitempty"`
 	Enums        []Named `json:"enums,omitempty"`
 	KeysOptional bool    `json:"keys_optional,omitempty"`
+	// SelfName: the root schema object is also added to itself as a named type (s.AddType(name, s)),
+	// the way JSight API registers the type that is being checked.
+	SelfName string `json:"self_name,omitempty"`
 }
 
 // Res is the canonical result of a call: Panic != "" when the call panicked.
@@ -109,6 +112,12 @@ func Build(sp Spec) (*js.Schema, Res) {
 	for _, e := range sp.Enums {
 		e := e
 		r := Safe(func() error { return s.AddRule(e.Name, enum.New(e.Name, e.Text)) })
+		if !r.OK && first.OK {
+			first = r
+		}
+	}
+	if sp.SelfName != "" {
+		r := Safe(func() error { return s.AddType(sp.SelfName, s) })
 		if !r.OK && first.OK {
 			first = r
 		}
